@@ -1,0 +1,63 @@
+//! Verification-only facade (compiled only with `--cfg libp2p_verif`).
+//!
+//! Forwards to the crate-private packet builders (`dns.rs`) and the packet parser (`query.rs`);
+//! nothing is re-implemented here.
+use std::{net::SocketAddr, time::Duration};
+
+use libp2p_core::Multiaddr;
+use libp2p_identity::PeerId;
+
+use super::{dns, query::MdnsPacket};
+
+/// What [`parse_packet`] saw, in plain data.
+#[derive(Debug, Clone, PartialEq, Eq)]
+pub enum Parsed {
+    /// A query for the libp2p service with the given id.
+    Query { query_id: u16 },
+    /// A service-discovery meta query with the given id.
+    ServiceDiscovery { query_id: u16 },
+    /// A response; one entry per discovered peer: (peer id, addresses as decoded, ttl).
+    Response(Vec<(PeerId, Vec<Multiaddr>, Duration)>),
+    /// A well-formed packet that is none of the above.
+    Other,
+}
+
+/// `dns::build_query_response` (all packets answering one query).
+pub fn build_query_response(
+    id: u16,
+    peer_id: PeerId,
+    addresses: &[Multiaddr],
+    ttl: Duration,
+) -> Vec<Vec<u8>> {
+    dns::build_query_response(id, peer_id, addresses.iter(), ttl)
+}
+
+/// `dns::build_query`.
+pub fn build_query() -> Vec<u8> {
+    dns::build_query()
+}
+
+/// `dns::build_service_discovery_response`.
+pub fn build_service_discovery_response(id: u16, ttl: Duration) -> Vec<u8> {
+    dns::build_service_discovery_response(id, ttl)
+}
+
+/// `MdnsPacket::new_from_bytes`, with the result flattened into plain data.
+pub fn parse_packet(buf: &[u8], from: SocketAddr) -> Result<Parsed, String> {
+    match MdnsPacket::new_from_bytes(buf, from) {
+        Err(e) => Err(e.to_string()),
+        Ok(None) => Ok(Parsed::Other),
+        Ok(Some(MdnsPacket::Query(q))) => Ok(Parsed::Query {
+            query_id: q.query_id(),
+        }),
+        Ok(Some(MdnsPacket::ServiceDiscovery(q))) => Ok(Parsed::ServiceDiscovery {
+            query_id: q.query_id(),
+        }),
+        Ok(Some(MdnsPacket::Response(r))) => Ok(Parsed::Response(
+            r.verif_peers()
+                .iter()
+                .map(|p| (*p.id(), p.addresses().clone(), p.ttl()))
+                .collect(),
+        )),
+    }
+}
